@@ -53,3 +53,23 @@ VARIANTS = [
       "Execution().set_log_improvements(True).set_max_fes(2 * MAX_FES)",
       "silent"),
 ]
+
+PRF = "moptipyapps/binpacking2d/packing_result.py"
+VARIANTS += [
+    V("record-bounds-swapped", PRF,
+      "            obounds[csv_scope(str(objf), _OBJECTIVE_LOWER)] = \\\n"
+      "                objf.lower_bound()",
+      "            obounds[csv_scope(str(objf), _OBJECTIVE_LOWER)] = \\\n"
+      "                objf.upper_bound()", "fire", "D12.6"),
+    V("record-value-under-class-name", PRF,
+      "        objfn: str = str(objf)", "        objfn: str = str(type(objf))",
+      "fire", "D12.6"),
+    V("record-width-height-swapped", PRF,
+      "        bin_width=instance.bin_width, bin_height=instance.bin_height,",
+      "        bin_width=instance.bin_height, bin_height=instance.bin_width,",
+      "fire", "D12.6"),
+    V("record-bin-bounds-from-objective-bounds", PRF,
+      "        objective_bounds=row[2],\n        bin_bounds=row[0])",
+      "        objective_bounds=row[2],\n        bin_bounds=row[2])", "fire",
+      "D12.6"),
+]
